@@ -337,4 +337,70 @@ theorem mpsc_local_first_cause_wins (c : Cfg) (s s' : State) (l : Label) (h : Re
   cases l <;> simp only [step] at hs <;> (repeat' split at hs) <;> (try (simp at hs; done)) <;>
     (try (obtain rfl := Option.some.inj hs)) <;> (try (exact hr)) <;> cases r <;> simp_all [rexit]
 
+/-- **Eventually observable.**  In a quiescent state (the runtime has nothing left to do), for a
+link with a live sender on which no transmission failed and whose receiver was not forwarded onwards:
+
+* the receiver called `close()`, is alive, `recv_impl` is not stuck behind a full queue, and the
+  connection is up: every clone observes `Closed`;
+* the receiver was dropped without `close()` and the connection is up: every clone observes `Dropped`;
+* the connection failed: every clone observes a reason (`is_closed()`), and it is `Failed` unless
+  a close or drop had been learnt of before.
+
+(Weak fairness of the scheduler turns "at quiescence" into "eventually".) -/
+theorem mpsc_close_observable_at_quiescence (c : Cfg) (s : State) (h : Reachable c s) (hq : Quiescent c s)
+    (hlive : s.handles ≠ 0) (hnf : s.failFlag = false) (hfe : s.fwdErr = false) :
+    (s.closeCalled = true → s.rAlive = true → s.rHold = none → s.connDown = false → s.reason = some .closed) ∧
+    (s.rAlive = false → s.closeCalled = false → s.connDown = false → s.reason = some .dropped) ∧
+    (s.connDown = true → s.reason.isSome ∧ (s.closeCalled = false → s.rAlive = true → s.reason = some .failed)) := by
+  have a := allinv_reachable c s h
+  refine ⟨?_, ?_, ?_⟩
+  · intro hcc ha hh hd
+    -- `send_impl` has ended
+    have hi : s.impl.isSome := by
+      cases hri : s.rimpl with
+      | some x => exact quiet_ended_of_rexit c s a hq hd (by simp [hri])
+      | none =>
+        have hu := (quiet_rimpl c s hq hri hh).1
+        rcases a.k.k1 hcc ha with h1 | h1 | h1 | h1
+        · simp [hu] at h1
+        · cases hi : s.impl with
+          | some x => rfl
+          | none =>
+            have hb := (quiet_running c s hq hi).1
+            rcases a.k.k2 h1 with h2 | h2
+            · simp [hb] at h2
+            · simp [hi] at h2
+        · simp [hd] at h1
+        · simp [hri] at h1
+    rcases ended_cause s a hlive hnf hfe hi with ⟨_, _, hr⟩ | ⟨_, hx, _⟩ | ⟨_, hx, _⟩
+    · exact hr
+    · simp [ha] at hx
+    · simp [hd] at hx
+  · intro ha hcc hd
+    have hi := quiet_ended_of_rexit c s a hq hd (quiet_dead c s hq ha)
+    rcases ended_cause s a hlive hnf hfe hi with ⟨_, hx, _⟩ | ⟨_, _, hr⟩ | ⟨_, hx, _⟩
+    · simp [hcc] at hx
+    · exact hr
+    · simp [hd] at hx
+  · intro hd
+    have hi : s.impl.isSome := by
+      cases hi : s.impl with
+      | some x => rfl
+      | none => have := (quiet_running c s hq hi).2; simp [hd] at this
+    rcases ended_cause s a hlive hnf hfe hi with ⟨_, hx, hr⟩ | ⟨_, hx, hr⟩ | ⟨_, _, hr⟩
+    · exact ⟨by simp [hr], fun hcc => by simp [hcc] at hx⟩
+    · exact ⟨by simp [hr], fun _ ha => by simp [ha] at hx⟩
+    · exact ⟨by simp [hr], fun _ _ => hr⟩
+
+/-! non-vacuity of the three clauses: quiescent states reached by `settle` -/
+def obsClose : State := settle cfg3 (run cfg3 (init 2 0 0) [.send ⟨1, 0, .no⟩, .admit, .close]) 40
+def obsDrop : State := settle cfg3 (run cfg3 (init 2 0 0) [.send ⟨1, 0, .no⟩, .admit, .dropRx]) 40
+def obsConn : State := settle cfg3 (run cfg3 (init 2 0 0) [.send ⟨1, 0, .no⟩, .admit, .connFail]) 40
+
+example : quiescentB cfg3 obsClose = true ∧ obsClose.handles = 2 ∧ obsClose.closeCalled = true ∧
+    obsClose.rAlive = true ∧ obsClose.rHold = none ∧ obsClose.reason = some .closed := by decide
+example : quiescentB cfg3 obsDrop = true ∧ obsDrop.rAlive = false ∧ obsDrop.closeCalled = false ∧
+    obsDrop.reason = some .dropped := by decide
+example : quiescentB cfg3 obsConn = true ∧ obsConn.connDown = true ∧ obsConn.reason = some .failed := by decide
+
 end Remoc.Close
